@@ -260,16 +260,16 @@ theorem depAddNode_good (D : List Nat) (h h' : Heap) (p d : Nat) (pos : Option I
 theorem frame_prec (D : List Nat) (h : Heap) (r : Nat) (c : PRec) (hr : RecOf h D r) :
     Frame D h { h with prec := upd h.prec r c } := by
   refine ⟨rfl, fun _ _ => rfl, fun _ _ => rfl, fun _ _ => rfl, fun _ _ => rfl, fun _ _ => rfl, Nat.le_refl _, Nat.le_refl _,
-          fun _ x => Or.inl x, fun _ x => Or.inl x, ?_, fun _ _ _ => rfl⟩
-  intro r' _ hn
+          fun _ x => Or.inl x, fun _ x => x, ?_, fun _ _ => rfl⟩
+  intro r' hn _
   have : r' ≠ r := fun e => hn (e ▸ hr)
   simp [upd, this]
 
 theorem frame_trec (D : List Nat) (h : Heap) (r : Nat) (c : TRec) (hr : TRecOf h D r) :
     Frame D h { h with trec := upd h.trec r c } := by
   refine ⟨rfl, fun _ _ => rfl, fun _ _ => rfl, fun _ _ => rfl, fun _ _ => rfl, fun _ _ => rfl, Nat.le_refl _, Nat.le_refl _,
-          fun _ x => Or.inl x, fun _ x => Or.inl x, fun _ _ _ => rfl, ?_⟩
-  intro r' _ hn
+          fun _ x => Or.inl x, fun _ x => x, fun _ _ _ => rfl, ?_⟩
+  intro r' hn
   have : r' ≠ r := fun e => hn (e ▸ hr)
   simp [upd, this]
 
